@@ -93,7 +93,11 @@ func (w *World) OpenUp(ctx context.Context, name string, opts ...iscp.UpstreamOp
 		iscp.WithUpstreamResumedEventHandler(iscp.UpstreamResumedEventHandlerFunc(func(ev *iscp.UpstreamResumedEvent) { u.Resumed++ })),
 	}
 	all = append(all, opts...)
-	up, err := w.Conn.OpenUpstream(ctx, name, all...)
+	// the context handed to OpenUpstream governs the open call only: it is cancelled as soon as the call
+	// returns (the usual `ctx, cancel := WithTimeout(...); defer cancel()` of an open helper)
+	octx, ocancel := vcontext.WithCancel(ctx)
+	up, err := w.Conn.OpenUpstream(octx, name, all...)
+	ocancel()
 	if err != nil {
 		return nil, err
 	}
@@ -110,7 +114,9 @@ func (w *World) OpenDown(ctx context.Context, name string, filters []*message.Do
 		iscp.WithDownstreamResumedEventHandler(iscp.DownstreamResumedEventHandlerFunc(func(ev *iscp.DownstreamResumedEvent) { d.Resumed++ })),
 	}
 	all = append(all, opts...)
-	dn, err := w.Conn.OpenDownstream(ctx, filters, all...)
+	octx, ocancel := vcontext.WithCancel(ctx)
+	dn, err := w.Conn.OpenDownstream(octx, filters, all...)
+	ocancel()
 	if err != nil {
 		return nil, err
 	}
